@@ -2,6 +2,7 @@ import QuaiVerif.Model.Etx
 import QuaiVerif.Model.Gas
 import QuaiVerif.Model.Value
 import QuaiVerif.Model.Create
+import QuaiVerif.Model.Wrapped
 /- Line-protocol front end of the ETX origin model (area `evm`). -/
 namespace QuaiVerif.Etx
 
@@ -56,8 +57,24 @@ partial def parseItems : List String → List Value.Item → Option (List Value.
       | _ => none
     else none
 
+def natList (w : String) : Option (List Nat) :=
+  if w == "-" then some [] else (w.splitOn ",").mapM String.toNat?
+
+def showList (l : List Nat) : String := if l.isEmpty then "-" else ",".intercalate (l.map toString)
+
+def parseWrappedOp (w : String) : Option Wrapped.Op :=
+  if w.startsWith "u" then (w.drop 1).toString.toNat?.map Wrapped.Op.unwrap
+  else if w.startsWith "c" then (w.drop 1).toString.toNat?.map Wrapped.Op.claim
+  else none
+
 def step (u : Unit) (ws : List String) : Unit × String :=
   match ws with
+  -- wrapped <balance> <deposits> <u<value> | c<index>>...: one transaction of lockup-contract calls by the owner contract
+  | "wrapped" :: b :: d :: ops => match b.toNat?, natList d, ops.mapM parseWrappedOp with
+    | some b, some d, some ops =>
+      let r := Wrapped.run { bal := b, deps := d, out := [] } ops
+      (u, s!"s={showList (r.2.map fun x => if x then 1 else 0)} bal={r.1.bal} deps={showList r.1.deps} out={showList r.1.out}")
+    | _, _, _ => (u, "bad-op")
   | ["newcase"] => (u, "ok")
   | ["note"] => (u, "ok")
   -- gasbuy <gasLimit> <gasPrice> <value> <balance> <used> <moved 0|1>: verdict and the payer's final balance
